@@ -37,7 +37,7 @@ type c01Adapter struct {
 	authLen int
 	kid     []byte
 	// create makes a request from the caller's buffers and returns the request encoding and the finalizer
-	create func(chal []byte, nonces [][]byte, kid []byte, r *core.Rand, fixedBlind bool) (req func() []byte, fin func([]byte) ([]tokens.Token, error), err error)
+	create func(chal []byte, nonces [][]byte, kid []byte, r *core.Rand, fixedBlind bool, keepBlind bool) (req func() []byte, fin func([]byte) ([]tokens.Token, error), err error)
 	// evaluate is the issuer side: decode rx (into the long-lived object when reuseObj) and evaluate
 	evaluate func(rx []byte, reuseObj bool) ([]byte, error)
 	// valid is the reference validity check of one token for (nonce, challenge)
@@ -105,7 +105,7 @@ func c01RunSession(c *core.Ctx, a *c01Adapter, r *core.Rand, steps int, tag stri
 		}
 		stop := false
 		pan, pv, where := core.Guard(func() {
-			req, fin, err := a.create(chalBuf, nArgs, kidBuf, r, step%2 == 1)
+			req, fin, err := a.create(chalBuf, nArgs, kidBuf, r, step%2 == 1 || mode >= 2, mode >= 2 && mode <= 4 && step > 1)
 			if err != nil {
 				bad("create-error", "CreateTokenRequest failed: "+err.Error())
 				stop = true
@@ -178,12 +178,16 @@ func c01Adapters(r *core.Rand, k1, k5 *oprf.PrivateKey, rk *rsa.PrivateKey) []*c
 		obj := new(type1.BasicPrivateTokenRequest)
 		kid := issuer.TokenKeyID()
 		blindBuf := make([]byte, 48)
+		have := false
 		out = append(out, &c01Adapter{name: "type1", typ: 1, authLen: 48, kid: kid,
-			create: func(chal []byte, nonces [][]byte, kidArg []byte, r *core.Rand, fixed bool) (func() []byte, func([]byte) ([]tokens.Token, error), error) {
+			create: func(chal []byte, nonces [][]byte, kidArg []byte, r *core.Rand, fixed bool, keep bool) (func() []byte, func([]byte) ([]tokens.Token, error), error) {
 				var st type1.BasicPrivateTokenRequestState
 				var err error
 				if fixed {
-					copy(blindBuf, c01EdgeScalar(r, 4+r.IntN(4), group.P384))
+					if !keep || !have {
+						copy(blindBuf, c01EdgeScalar(r, 4+r.IntN(4), group.P384))
+						have = true
+					}
 					st, err = client.CreateTokenRequestWithBlind(chal, nonces[0], kidArg, issuer.TokenKey(), blindBuf)
 				} else {
 					st, err = client.CreateTokenRequest(chal, nonces[0], kidArg, issuer.TokenKey())
@@ -220,13 +224,17 @@ func c01Adapters(r *core.Rand, k1, k5 *oprf.PrivateKey, rk *rsa.PrivateKey) []*c
 		kid := issuer.TokenKeyID()
 		blindBuf := make([]byte, 256)
 		saltBuf := make([]byte, 48)
+		have := false
 		out = append(out, &c01Adapter{name: "type2", typ: 2, authLen: 256, kid: kid,
-			create: func(chal []byte, nonces [][]byte, kidArg []byte, r *core.Rand, fixed bool) (func() []byte, func([]byte) ([]tokens.Token, error), error) {
+			create: func(chal []byte, nonces [][]byte, kidArg []byte, r *core.Rand, fixed bool, keep bool) (func() []byte, func([]byte) ([]tokens.Token, error), error) {
 				var st type2.BasicPublicTokenRequestState
 				var err error
 				if fixed {
-					copy(blindBuf, RSABlind(r, 5+r.IntN(3), rk))
-					copy(saltBuf, r.Bytes(48))
+					if !keep || !have {
+						copy(blindBuf, RSABlind(r, 5+r.IntN(3), rk))
+						copy(saltBuf, r.Bytes(48))
+						have = true
+					}
 					st, err = client.CreateTokenRequestWithBlind(chal, nonces[0], kidArg, issuer.TokenKey(), blindBuf, saltBuf)
 				} else {
 					st, err = client.CreateTokenRequest(chal, nonces[0], kidArg, issuer.TokenKey())
@@ -259,14 +267,18 @@ func c01Adapters(r *core.Rand, k1, k5 *oprf.PrivateKey, rk *rsa.PrivateKey) []*c
 		obj := new(type5.BatchedPrivateTokenRequest)
 		kid := issuer.TokenKeyID()
 		blindBufs := [][]byte{make([]byte, 32), make([]byte, 32), make([]byte, 32)}
+		have := make([]bool, 3)
 		out = append(out, &c01Adapter{name: "type5", typ: 5, authLen: 64, kid: kid, batch: true,
-			create: func(chal []byte, nonces [][]byte, kidArg []byte, r *core.Rand, fixed bool) (func() []byte, func([]byte) ([]tokens.Token, error), error) {
+			create: func(chal []byte, nonces [][]byte, kidArg []byte, r *core.Rand, fixed bool, keep bool) (func() []byte, func([]byte) ([]tokens.Token, error), error) {
 				var st type5.BatchedPrivateTokenRequestState
 				var err error
 				if fixed {
 					var bl [][]byte
 					for j := range nonces {
-						copy(blindBufs[j], c01EdgeScalar(r, 4+r.IntN(4), group.Ristretto255))
+						if !keep || !have[j] {
+							copy(blindBufs[j], c01EdgeScalar(r, 4+r.IntN(4), group.Ristretto255))
+							have[j] = true
+						}
 						bl = append(bl, blindBufs[j])
 					}
 					st, err = client.CreateTokenRequestWithBlinds(chal, nonces, kidArg, issuer.TokenKey(), bl)
@@ -307,9 +319,9 @@ func c01Adapters(r *core.Rand, k1, k5 *oprf.PrivateKey, rk *rsa.PrivateKey) []*c
 		blindBuf := make([]byte, 48)
 		n := 0
 		out = append(out, &c01Adapter{name: "type3", typ: 3, authLen: 256, kid: kid,
-			create: func(chal []byte, nonces [][]byte, kidArg []byte, r *core.Rand, fixed bool) (func() []byte, func([]byte) ([]tokens.Token, error), error) {
+			create: func(chal []byte, nonces [][]byte, kidArg []byte, r *core.Rand, fixed bool, keep bool) (func() []byte, func([]byte) ([]tokens.Token, error), error) {
 				n++
-				if !fixed || n == 1 {
+				if !keep || n == 1 {
 					copy(blindBuf, ScalarBytes(r, curve.Params().N, 48)) // otherwise: the same request blind as in the run before
 				}
 				st, err := client.CreateTokenRequest(chal, nonces[0], blindBuf, kidArg, issuer.TokenKey(), origins[r.IntN(len(origins))], issuer.NameKey())
